@@ -172,6 +172,8 @@ type propCfg struct {
 	// Points: size of the enumerated fault space (fault_enumeration checks).
 	Points     int
 	PointsWhat string
+	// RaceFamilies run in co-release mode on the binary built with -race.
+	RaceFamilies []string
 }
 
 var baseAssume = []string{
@@ -216,6 +218,7 @@ type job struct {
 	Replay    string   `json:"replay"`
 	MaxKeep   int      `json:"max_keep"`
 	Tree      string   `json:"tree"`
+	RaceLog   string   `json:"race_log"`
 }
 
 type violationReport struct {
@@ -264,6 +267,9 @@ func runWorker(bin string, j job, gomaxprocs int, timeout time.Duration) (*worke
 	os.Remove(j.Out)
 	cmd := exec.Command(bin, "-test.run", "^TestWorker$", "-test.timeout", "0")
 	cmd.Env = append(os.Environ(), "VERIF_JOB="+jp, "GOMAXPROCS="+strconv.Itoa(gomaxprocs), "GODEBUG=randseednop=0")
+	if j.RaceLog != "" {
+		cmd.Env = append(cmd.Env, "GORACE=log_path="+j.RaceLog+" halt_on_error=0 history_size=3")
+	}
 	cmd.Stdout = io.Discard
 	errf, _ := os.Create(strings.TrimSuffix(j.Out, ".json") + ".stderr")
 	cmd.Stderr = errf
@@ -336,12 +342,7 @@ func envInt(name string, def int) int {
 func check(id, tier string) int {
 	start := time.Now()
 	pc := propOf(id)
-	race := false
-	for _, f := range pc.Families {
-		if strings.HasPrefix(f, "race:") {
-			race = true
-		}
-	}
+	race := len(pc.RaceFamilies) > 0
 	dir, hash := ensureBuild(false)
 	if race {
 		ensureBuild(true)
@@ -359,6 +360,13 @@ func check(id, tier string) int {
 		}
 	}
 	workers := envInt("VERIF_WORKERS", 16)
+	raceWorkers := 0
+	if race {
+		raceWorkers = workers / 4
+		if raceWorkers < 1 {
+			raceWorkers = 1
+		}
+	}
 	jobsDir := filepath.Join(dir, "jobs", id+"-"+tier+"-"+strconv.Itoa(os.Getpid()))
 	os.RemoveAll(jobsDir)
 	os.MkdirAll(jobsDir, 0o755)
@@ -411,7 +419,14 @@ func check(id, tier string) int {
 				}
 				j := job{Mode: "explore", Prop: id, Families: pc.Families, SeedBase: seedBase, Worker: w, Workers: workers, Start: startIdx,
 					Count: 1 << 30, BudgetS: left, Known: knownPath, Out: filepath.Join(jobsDir, fmt.Sprintf("w%d-%d.json", w, part)), ReplayDir: replayDir, MaxKeep: 2, Tree: hash}
-				out, err := runWorker(bin, j, 1, time.Duration((left+600)*float64(time.Second)))
+				wbin, procs := bin, 1
+				if race && w < raceWorkers {
+					// the last word in concurrency: these workers run the -race binary in co-release mode
+					j.Families = pc.RaceFamilies
+					j.RaceLog = filepath.Join(jobsDir, fmt.Sprintf("race-w%d-%d", w, part))
+					wbin, procs = filepath.Join(dir, "sim-race.test"), 4
+				}
+				out, err := runWorker(wbin, j, procs, time.Duration((left+600)*float64(time.Second)))
 				if err != nil {
 					results[w] = wres{nil, err}
 					return
@@ -632,15 +647,27 @@ func replay(path string) int {
 		die(2, "%v", err)
 	}
 	var rf struct {
-		Property string `json:"property"`
+		Property  string `json:"property"`
+		Violation struct {
+			Class string `json:"class"`
+		} `json:"violation"`
 	}
 	json.Unmarshal(b, &rf)
+	isRace := rf.Violation.Class == "data-race"
+	if isRace {
+		ensureBuild(true)
+	}
 	jobsDir := filepath.Join(dir, "jobs", "replay-"+strconv.Itoa(os.Getpid()))
 	os.MkdirAll(jobsDir, 0o755)
 	defer os.RemoveAll(jobsDir)
 	abs, _ := filepath.Abs(path)
 	j := job{Mode: "replay", Prop: rf.Property, Known: "/nonexistent", Out: filepath.Join(jobsDir, "replay.json"), Replay: abs, Tree: hash}
-	out, err := runWorker(filepath.Join(dir, "sim.test"), j, 2, 10*time.Minute)
+	rbin, procs := filepath.Join(dir, "sim.test"), 1
+	if isRace {
+		rbin, procs = filepath.Join(dir, "sim-race.test"), 4
+		j.RaceLog = filepath.Join(jobsDir, "race-replay")
+	}
+	out, err := runWorker(rbin, j, procs, 10*time.Minute)
 	if err != nil {
 		die(2, "%v", err)
 	}
